@@ -276,8 +276,8 @@ pub fn skeletons(out: &mut String) {
             if before.first() == Some(&"mut") && before.get(1) == Some(&"&") { ".refMut" } else if before.first() == Some(&"mut") { ".byValueMut" }
             else if before.first() == Some(&"&") || (before.len() >= 2 && before[1] == "&") { ".ref" } else { ".byValue" }
         }).unwrap_or(".none");
-        writeln!(out, "def {} : Fn where\n  key := {}\n  owner := {}\n  trait_ := {}\n  name := {}\n  file := {}\n  recv := {}\n  nparams := {}\n  isUnsafe := {}\n  body := [\n    {}]\n",
-            name, lean_str(&g.key), lean_str(&g.owner), lean_str(&g.tr), lean_str(&g.name), lean_str(g.file), recv, g.params.len(), g.sig.first().map(|s| s == "unsafe").unwrap_or(false), body).unwrap();
+        writeln!(out, "def {} : Fn where\n  key := {}\n  scope := {}\n  owner := {}\n  trait_ := {}\n  name := {}\n  file := {}\n  recv := {}\n  nparams := {}\n  isUnsafe := {}\n  body := [\n    {}]\n",
+            name, lean_str(&g.key), lean_str(match g.file { "index" => "C04", "generic" => "C09", f => crate::scope_of(f, &g.key, &g.name) }), lean_str(&g.owner), lean_str(&g.tr), lean_str(&g.name), lean_str(g.file), recv, g.params.len(), g.sig.first().map(|s| s == "unsafe").unwrap_or(false), body).unwrap();
         names.push(name);
     }
     writeln!(out, "def skAll : List Fn := [{}]\n", names.join(", ")).unwrap();
